@@ -71,6 +71,12 @@
 	extern __typeof__(gvt_msg_drain) p##gvt_msg_drain;                                                             \
 	extern __typeof__(sync_thread_barrier) p##sync_thread_barrier;                                                 \
 	extern __typeof__(auto_ckpt_on_gvt) p##auto_ckpt_on_gvt;                                                       \
+	extern __typeof__(auto_ckpt_init) p##auto_ckpt_init;                                                           \
+	extern __typeof__(stats_global_init) p##stats_global_init;                                                     \
+	extern __typeof__(stats_init) p##stats_init;                                                                   \
+	extern __typeof__(lp_global_init) p##lp_global_init;                                                           \
+	extern __typeof__(termination_global_init) p##termination_global_init;                                         \
+	extern __typeof__(gvt_global_init) p##gvt_global_init;                                                         \
 	extern __typeof__(mpi_remote_msg_handle) p##mpi_remote_msg_handle;                                             \
 	extern struct lp_ctx *p##lps;                                                                                  \
 	extern struct simulation_configuration p##global_config;                                                       \
@@ -102,7 +108,7 @@
 		    F(p, model_allocator_checkpoint_restore), F(p, model_allocator_fossil_lp_collect),                 \
 		    F(p, process_lp_init), F(p, process_lp_fini), F(p, process_msg), F(p, lp_init), F(p, lp_fini), F(p, stats_take),                 \
 		    F(p, stats_on_gvt), F(p, gvt_phase_run), F(p, gvt_msg_drain), F(p, sync_thread_barrier),           \
-		    F(p, auto_ckpt_on_gvt), F(p, mpi_remote_msg_handle), .lps = &p##lps,                               \
+		    F(p, auto_ckpt_on_gvt), F(p, auto_ckpt_init), F(p, stats_global_init), F(p, stats_init), F(p, lp_global_init), F(p, termination_global_init), F(p, gvt_global_init), F(p, mpi_remote_msg_handle), .lps = &p##lps,                               \
 		    .global_config = &p##global_config, .nid = &p##nid, .n_nodes = &p##n_nodes,                        \
 		    .n_lps_node = &p##n_lps_node, .lid_node_first = &p##lid_node_first, .p_rid = p##p_rid,             \
 		    .p_current_lp = p##p_current_lp, .p_lid_thread_first = p##p_lid_thread_first,                      \
